@@ -319,7 +319,15 @@ func hasWalk(o opDesc) bool {
 // file system that produced it).
 func renderInfo(v avfs.VFS, fi fs.FileInfo) string {
 	m := fi.Mode()
-	s := fmt.Sprintf("%q %v sz%d t%d dir=%v", fi.Name(), m, fi.Size(), fi.ModTime().UnixNano(), fi.IsDir())
+	mt := fmt.Sprintf("t%d", fi.ModTime().UnixNano())
+
+	if m&fs.ModeSymlink != 0 {
+		// the time of a symbolic link itself is its creation time and cannot be
+		// set through the API: base and twin legitimately differ
+		mt = "t(link)"
+	}
+
+	s := fmt.Sprintf("%q %v sz%d %s dir=%v", fi.Name(), m, fi.Size(), mt, fi.IsDir())
 
 	if fi.Sys() == nil {
 		return s + " sys=nil"
